@@ -262,8 +262,40 @@ def r_append_gate(ctx):
         ctx.tick()
         if not bad:
             ctx.ok(inst, h.loc(c), 'unreachable from the region entry when the %d nodes on which the gate facts hold are removed' % len(info['gate_nodes']))
-    # both rejections answer with success=False
-    ctx.expect_min(1)
+    # nothing of an append_entries message from a stale term takes effect: every store / truncation / commit write /
+    # leader-pointer write of the region is under message.term >= currentTerm
+    msg = info['msg']
+    gterm = U.goal(ex, "%s['term'] >= self.%s" % (msg, R.currentTerm))
+    effects = []
+    for f, c, via in adds:
+        effects.append((c, 'store of received entries'))
+    for f, c, via in log_op_sites(ctx, 'deleteEntriesFrom'):
+        if f is h:
+            effects.append((c, 'log truncation'))
+    for st, k in U.assigns_to_attr(P, h, R.commitIndex):
+        effects.append((st, 'commit index write'))
+    for st, k in U.assigns_to_attr(P, h, R.leaderPtr):
+        if not (isinstance(st.value, ast.Constant) and st.value.value is None):
+            effects.append((st, 'leader pointer write'))
+    bad = None
+    n_eff = 0
+    for node_ast, what in effects:
+        for n in U.nodes_containing(ex.cfg, node_ast):
+            if not res.reached(n.id):
+                continue
+            n_eff += 1
+            ok, cex = U.must(ctx, res, n.id, gterm)
+            if not ok and bad is None:
+                bad = (node_ast, what, n, cex)
+    inst = 'append_entries of a stale term has no effect'
+    if bad is not None:
+        node_ast, what, n, cex = bad
+        ctx.violation('%s:stale-term-append-entries-accepted' % h.qualname, h.loc(node_ast),
+                      'the %s happens on a path where the message term is not known to be >= the current term: a deposed leader can still overwrite the log / move the commit index: %s'
+                      % (what, res.path_str(n.id, cex)), instance=inst)
+    else:
+        ctx.ok(inst, h.loc(adds[0][1]), '%d effect sites of the region are all under message.term >= currentTerm' % n_eff)
+    ctx.expect_min(2)
 
 
 @rule('R-commit-gate', 'the follower raises its commit index only on paths that passed the log-matching gate or a '
